@@ -116,7 +116,7 @@ Proof. unfold finish_rectangle. intros H. do 3 inv_bind H. inversion H. reflexiv
 
 Lemma parse_rectangle_fixed f hd t r : parse_rectangle f hd t = Ok r -> mr_fixed r = f.
 Proof.
-  destruct t as [| | |l|]; try discriminate. cbn [parse_rectangle].
+  destruct t as [| | |l| |]; try discriminate. cbn [parse_rectangle].
   destruct l as [|x [|y [|w [|h [|e [|e' tl]]]]]]; try discriminate; intros H; do 4 inv_bind H.
   - eapply finish_fixed; eauto.
   - destruct e; try discriminate. inv_bind H. eapply finish_fixed; eauto.
@@ -134,7 +134,7 @@ Qed.
 Lemma parse_rectangles_fixed f hd v rs :
   parse_rectangles f hd v = Ok rs -> Forall (fun r => mr_fixed r = f) rs.
 Proof.
-  destruct v as [| | |l|]; try discriminate. destruct l as [|first rest]; [discriminate|].
+  destruct v as [| | |l| |]; try discriminate. destruct l as [|first rest]; [discriminate|].
   cbn [parse_rectangles]. destruct (is_some (as_number first)); apply parse_rect_list_fixed.
 Qed.
 
@@ -154,7 +154,7 @@ Qed.
 
 Lemma parse_module_inv name t m : parse_module name t = Ok m -> setup_inv m.
 Proof.
-  destruct t as [| | | |info]; try discriminate. cbn [parse_module]. intros H. do 5 inv_bind H.
+  destruct t as [| | | |info|]; try discriminate. cbn [parse_module]. intros H. do 5 inv_bind H.
   destruct (setup_spec _ _ _ _ H) as (R & F & Hh & _ & A & N). unfold setup_inv. rewrite R, F.
   split; [exact A|]. split; [|exact N].
   destruct (lookup KW_RECTANGLES info).
@@ -172,7 +172,7 @@ Qed.
 
 Lemma parse_netlist_inv t ms es : parse_netlist t = Ok (ms, es) -> Forall setup_inv ms.
 Proof.
-  destruct t as [| | | |items]; try discriminate. intros H.
+  destruct t as [| | | |items|]; try discriminate. intros H.
   destruct (parse_netlist_result _ _ _ H) as (_ & Hm & _).
   destruct (lookup KW_MODULES items) as [v|]; [|subst; constructor].
   destruct v; try discriminate. cbn [parse_modules] in Hm. inv_bind Hm.
